@@ -4,8 +4,11 @@
    Vocabulary (Model/C42.v). The listener (RunUnix / RunTcp, same text) is a
    state machine with ONE EVENT PER CRITICAL SECTION OR BLOCKING CALL of the Go
    code: AcceptRet c (Accept returned c; c is open but not yet counted), Count c
-   (active++, disarm, wg.Add, go serve), Serve c (one serveOne iteration on c's
-   own reader / writer), Done c (active--, arm(idle) when the count reaches zero
+   (active++, disarm, wg.Add, go serve), Start c (notifyTransport returned nil:
+   the serve-start hook accepted, or the transport was already bound; a
+   connection the hook REFUSES has no Start and goes from Count straight to
+   Done, so the hook's verdict sequence is part of the schedule), Serve c (one
+   serveOne iteration on c's own reader / writer, only after Start c), Done c (active--, arm(idle) when the count reaches zero
    and no shutdown was requested, wg.Done), TimerFire g (the runtime expires
    timer generation g and starts its callback goroutine), Callback g (under the
    lock: if its timer is still the current one and active == 0 then shutdown =
@@ -35,13 +38,43 @@ Theorem shutdown_only_when_idle : forall k sched e,
   (exists g, e = Callback g) /\ active s = 0%Z /\ serving s = [] /\ shutdown (exec k s e) = true.
 Proof. intros k sched e. apply closes_only_idle, inv_reach. Qed.
 
-(* the counter IS the number of open registered connections, in every reachable
-   state, and at most one timer is pending (it is the one in the variable) *)
+(* The counter IS the number of open registered connections - [serving] =
+   counted by the loop and not yet done, whether or not the serve-start hook
+   accepted them - in every reachable state: for every schedule and therefore
+   for every verdict sequence of the hook (a refused connection is counted by
+   the loop, never served, and uncounted by its goroutine). At most one timer is
+   pending and it is the one in the variable. *)
 Theorem counter_is_open_count : forall k sched,
   let s := run k (init k) sched in
   active s = Z.of_nat (length (serving s)) /\ wg s = Z.of_nat (length (serving s))
   /\ (pendt s = [] \/ exists g, tvar s = Some g /\ pendt s = [g]).
 Proof. intros k sched. pose proof (inv_reach k sched) as I. split; [apply I | split; apply I]. Qed.
+
+(* a connection is served only after the hook accepted it *)
+Theorem served_only_after_hook : forall k sched c,
+  let s := run k (init k) sched in
+  mem c (started s) = false -> sessions (exec k s (Serve c)) = sessions s.
+Proof. intros k sched c. apply serve_needs_start. Qed.
+
+(* The variant that counts LATE - active++ / disarm() done by the connection's
+   goroutine only once the hook accepted it, while Done still decrements every
+   connection - breaks the invariant and the property: the hook refuses
+   connection 1 (counter -1), connection 2 is accepted and held (counter 0),
+   connection 3 comes and goes (counter 1, then 0: the idle timer is armed),
+   the timer fires and its callback closes the listener while connection 2 is
+   open and being served - and not in the accept window ([late] = None). On the
+   code the same schedule leaves the listener open with the counter at 1 and no
+   timer pending. *)
+Theorem late_count_variant_refuted :
+  let s := run_late code_cfg (init code_cfg) w_late_count in
+  closed s = true /\ serving s = [2%nat] /\ active s = 0%Z /\ looppend s = None /\ late s = None
+  /\ active (run_late code_cfg (init code_cfg) [AcceptRet 1; Count 1; Done 1]%nat) = (-1)%Z.
+Proof. exact late_count_witness. Qed.
+
+Theorem late_count_schedule_on_the_code :
+  let s := run code_cfg (init code_cfg) w_late_count in
+  closed s = false /\ serving s = [2%nat] /\ active s = 1%Z /\ pendt s = [].
+Proof. exact late_count_code. Qed.
 
 (* Never while one is open - precisely: in every reachable state with the
    listener closed, any connection that is open (counted, or returned by Accept
@@ -177,10 +210,21 @@ Qed.
    connection far past the timeout, stops one period after the close, and
    refuses the next dial *)
 Example premises_satisfiable :
-  let i := {| i_unix := true; i_idle := 300; i_gate := false; i_conns := [[]; []];
+  let i := {| i_unix := true; i_idle := 300; i_gate := false; i_hook := []; i_conns := [[]; []];
               i_ops := [Open 0; Wait 900; Close 0; Wait 100; Wait 500; Open 1]%nat |} in
   map p_ret (o_probes (model i)) = [false; false; false; false; true; true]
   /\ map p_ok (o_probes (model i)) = [true; true; true; true; true; false]
   /\ closed (run code_cfg (init code_cfg) [AcceptRet 1; Count 1; Done 1; TimerFire 1]%nat) = false
   /\ closed (exec code_cfg (run code_cfg (init code_cfg) [AcceptRet 1; Count 1; Done 1; TimerFire 1]%nat) (Callback 1)) = true.
+Proof. vm_compute. auto. Qed.
+
+(* non-vacuity with the hook: it refuses connection 0 (closed unserved), B = 1
+   is held, C = 2 comes and goes, and three idle periods later a dial still
+   succeeds and Run has not returned *)
+Example hook_premises_satisfiable :
+  let i := {| i_unix := false; i_idle := 300; i_gate := false; i_hook := [true]; i_conns := [[]; []; []; []];
+              i_ops := [Open 0; Open 1; Open 2; Close 2; Wait 900; Open 3]%nat |} in
+  map p_refused (o_probes (model i)) = [true; false; false; false; false; false]
+  /\ map p_ok (o_probes (model i)) = [true; true; true; true; true; true]
+  /\ map p_ret (o_probes (model i)) = [false; false; false; false; false; false].
 Proof. vm_compute. auto. Qed.
